@@ -7,7 +7,7 @@ if ! git diff --quiet; then echo "REPO DIRTY"; exit 2; fi
 if ! git apply --3way "$patch" 2>/tmp/apply.err && ! git apply "$patch" 2>>/tmp/apply.err; then echo "PATCH DOES NOT APPLY: $(head -3 /tmp/apply.err)"; git checkout -- . ; exit 3; fi
 cd /verif
 for c in "$@"; do
-  out=$(./run.sh "$c" "${TIER:-quick}" 2>&1); rc=$?
+  out=$(timeout 900 ./run.sh "$c" "${TIER:-quick}" 2>&1); rc=$?
   echo "== $c rc=$rc $(echo "$out" | grep -c '^VIOLATION') VIOLATION lines; $(echo "$out" | grep -m1 -A1 '^VIOLATION' | tail -1 | cut -c1-260)"
 done
 cd /repo && git reset -q --hard HEAD && git status --short | head -3
